@@ -122,6 +122,19 @@ CloseFail(p) == /\ pc[p] = "write" /\ CanFault /\ Layout = "dir"
                 /\ perr' = [perr EXCEPT ![p] = TRUE]
                 /\ Goto(p, AfterFile(p, TRUE)) /\ Advance(p) /\ Op(p, "write", "closefail")
                 /\ UNCHANGED <<extra, yaml, tmp, readers, writer, res, crashes, tampers>>
+\* The context of the store is cancelled while the files are being copied (the store is interrupted, not killed): the
+\* copy that has just been started still completes, no further file is copied, and the store must fail - above all it
+\* must not write the marker over an incomplete set of files.
+Cancel(p) == /\ pc[p] = "open" /\ CanFault /\ Layout = "dir" /\ idx[p] < NFiles
+             /\ faults' = faults + 1
+             /\ file' = [file EXCEPT ![idx[p]] = "partial"]
+             /\ Goto(p, "write_c") /\ Op(p, "open", "cancel")
+             /\ UNCHANGED <<idx, perr, extra, yaml, tmp, readers, writer, res, crashes, tampers>>
+WriteCancelled(p) == /\ pc[p] = "write_c"
+                     /\ file' = [file EXCEPT ![idx[p]] = "good"]
+                     /\ perr' = [perr EXCEPT ![p] = TRUE]
+                     /\ Goto(p, "unlock_err") /\ Op(p, "write", "ok")
+                     /\ UNCHANGED <<idx, extra, yaml, tmp, readers, writer, res, faults, crashes, tampers>>
 \* the marker: atomic put = temp file, write, rename
 YOpen(p) == /\ pc[p] = "yopen" /\ tmp' = tmp + 1 /\ Goto(p, "ywrite") /\ Op(p, "yopen", "ok")
             /\ UNCHANGED <<idx, perr, file, extra, yaml, readers, writer, res, faults, crashes, tampers>>
@@ -190,12 +203,14 @@ Tamper(k, f) ==
        [] k = "add"          -> extra' = TRUE /\ UNCHANGED <<file, yaml>>
        [] k = "yaml-corrupt" -> yaml' = "invalid" /\ UNCHANGED <<file, extra>>
        [] k = "yaml-delete"  -> yaml' = "absent" /\ UNCHANGED <<file, extra>>
-       [] k = "yaml-deps"    -> yaml' = "depsbad" /\ UNCHANGED <<file, extra>>
+       \* (the pins are read together with the marker: a reader that has already read it holds the pins as they were,
+       \*  so this tampering is explored while no reader is between its read of the marker and its access)
+       [] k = "yaml-deps"    -> (\A q \in Procs : pc[q] \notin {"ru_hit", "access"}) /\ yaml' = "depsbad" /\ UNCHANGED <<file, extra>>
        [] k = "flip" /\ Layout = "tar" -> yaml' = "bad" /\ UNCHANGED <<file, extra>>
   /\ UNCHANGED <<pc, idx, perr, tmp, readers, writer, res, faults, crashes>>
 
 Step(p) == \/ RLock(p) \/ Read1(p) \/ RUnlock(p) \/ WLock(p) \/ Read2(p)
-           \/ Open(p) \/ OpenFail(p) \/ Write(p) \/ WriteFail(p) \/ CloseFail(p)
+           \/ Open(p) \/ OpenFail(p) \/ Write(p) \/ WriteFail(p) \/ CloseFail(p) \/ Cancel(p) \/ WriteCancelled(p)
            \/ YOpen(p) \/ YOpenFail(p) \/ YWrite(p) \/ YRename(p) \/ Unlock(p)
            \/ TarPutStart(p) \/ TarPutDone(p) \/ TarGet(p) \/ TarDelete(p)
            \/ Access(p) \/ Crash(p)
@@ -212,7 +227,7 @@ Repair == \A p \in Procs : (Roles[p] = "put" /\ res[p] = "ok" /\ tampers = 0) =>
              IF Layout = "dir" THEN Valid /\ \A f \in Files : file[f] = "good" ELSE yaml = "good"
 \* content is only ever served from a good entry (by construction of Access; kept as documentation)
 LockSafety == /\ writer # None => readers = {}
-              /\ \A p \in Procs : pc[p] \in {"r2", "open", "write", "yopen", "ywrite", "yrename", "unlock_ok", "unlock_err"}
+              /\ \A p \in Procs : pc[p] \in {"r2", "open", "write", "write_c", "yopen", "ywrite", "yrename", "unlock_ok", "unlock_err"}
                                    => (Layout = "tar" \/ writer = p)
               /\ \A p \in Procs : pc[p] \in {"r1", "ru_done", "ru_up", "ru_hit", "ru_miss"} => p \in readers
 \* nobody writes files of an entry that is marked complete
